@@ -684,6 +684,23 @@ def step (e : Env) (op : String) : Option (Env × String × String) :=
     | none => none
   else if h == "ab1" || h == "ab" || h == "ar1" || h == "ar" then
     some (doAccept e h (h == "ab1" || h == "ab") (h == "ab" || h == "ar"))
+  else if h == "sdm" then
+    -- the `Chain` variant of `sd`: a uni stream opened through the Connection, ONE DATA frame whose payload is a
+    -- multi-chunk `Buf` (cut at the given positions), `poll_ready` awaited, finished.  The write loop hands Quinn
+    -- the header and then chunk after chunk; what reaches the peer is the frame over the FLATTENED payload.
+    match num 1, num 2, p[3]? with
+    | some n, some seed, some cs =>
+      let ks := (cs.splitOn ",").map String.toNat?
+      let v := ks.filterMap id
+      if !(ks.all Option.isSome && (v.zip (0 :: v)).all (fun (a, b) => decide (a > b)) && v.all (fun a => decide (a < n))) then none
+      else if e.tags.length != e.opened.length then none
+      else
+        let (e', t, sp) := doOpen e "sdm" false true
+        if e'.opened.length == e.opened.length then some (e', t, sp)      -- not opened: the error / nothing
+        else
+          let e' := { e' with tags := e'.tags ++ [0 :: Varint.encode n ++ payload n seed] }
+          some (afterAccepted e' [0], t, sp)
+    | _, _, _ => none
   else if h == "otag" then
     match num 1, num 2 with
     | some n, some seed =>
